@@ -16,12 +16,12 @@ pub fn load_corpus(path: &str) -> Vec<Project> {
 
 pub fn budget(property: &str, tier: &str) -> u64 {
     match (property, tier) {
-        ("C14", "quick") => 3000,
-        ("C14", _) => 150_000,
-        ("C04", "quick") => 4000,
-        ("C04", _) => 200_000,
-        ("C10", "quick") => 1400,
-        ("C10", _) => 20_000,
+        ("C14", "quick") => 40_000,
+        ("C14", _) => 2_000_000,
+        ("C04", "quick") => 40_000,
+        ("C04", _) => 3_000_000,
+        ("C10", "quick") => 20_000,
+        ("C10", _) => 300_000,
         _ => 100,
     }
 }
